@@ -48,6 +48,15 @@ def h_roundtrip(ctx, n, twin=False):
     ctx.holds("repack identical", u.pack() == raw)
     ctx.holds("space packet view", t.to_space_packet().pack() == raw)
     ctx.holds("crc16 attribute", t.crc16 == ctx.bytes_of(ref[-2:]))
+    # the same telecommand from the composite constructor with a placeholder length in the header, application data
+    # assigned afterwards: the length field is recomputed from the data, not carried along
+    import copy as _copy
+    from spacepackets.ccsds.spacepacket import SpacePacketHeader as _Hdr, PacketType as _PT
+    tc2 = PusTc.from_composite_fields(_Hdr(_PT.TC, apid, sc, ctx.int("placeholder_len", 0, 65535), True),
+                                      _copy.copy(t.pus_tc_sec_header), b"")
+    tc2.app_data = data
+    ctx.holds("composite constructor with a placeholder length, data assigned afterwards: pack==reference, packet_len",
+              sym_and(tc2.pack() == refb, tc2.packet_len == total))
     sh = PusTcDataFieldHeader(svc, sub, src, ack)
     ctx.holds("sec header pack", sh.pack() == ctx.bytes_of(ref[6:11]))
     ush = PusTcDataFieldHeader.unpack(ctx.bytes_of(ref[6:11]))
